@@ -498,6 +498,34 @@ func (s *slicer) resolveParam(p *ssa.Parameter, k int, depth int) *prov {
 				}
 			}
 		}
+		// the function value is returned by a factory: look at what the factory's caller does with it
+		for _, r := range users {
+			if _, isRet := r.(*ssa.Return); !isRet || k < 2 {
+				continue
+			}
+			call2, ok := s.ch.edges[k-2].Site.(*ssa.Call)
+			if !ok || staticFn(&call2.Call) != s.fnAt(k-1) {
+				continue
+			}
+			var users2 []ssa.Instruction
+			for _, r2 := range referrers(call2) {
+				users2 = append(users2, r2)
+				if ct, ok := r2.(*ssa.ChangeType); ok {
+					users2 = append(users2, referrers(ct)...)
+				}
+			}
+			for _, r2 := range users2 {
+				if call, ok := r2.(*ssa.Call); ok {
+					f := staticCallee(&call.Call)
+					if isFn(f, "path/filepath", "WalkDir") || isFn(f, "path/filepath", "Walk") {
+						if idx == 0 {
+							return &prov{Kind: "walkentry", Args: []*prov{s.resolve(call.Call.Args[0], k-2, depth+1)}}
+						}
+						return &prov{Kind: "walkparam", Name: p.Name()}
+					}
+				}
+			}
+		}
 	}
 	return &prov{Kind: "unknown", Name: "parameter " + p.Name() + " of a callback"}
 }
@@ -1042,6 +1070,7 @@ func chainSites(ch *chain, site ssa.Instruction) []ssa.Instruction {
 // guardedByEdges: with every branch edge on which pred holds deleted from the
 // (loud-pruned) CFG of site's function, site is unreachable from the entry.
 func (c *Ctx) guardedByEdges(site ssa.Instruction, pred func(cond ssa.Value, val bool) bool) bool {
+	pred = c.liftPred(pred, 0)
 	fn := site.Block().Parent()
 	lm := c.Loud()
 	target := site.Block()
@@ -1081,6 +1110,89 @@ func (c *Ctx) guardedByEdges(site ssa.Instruction, pred func(cond ssa.Value, val
 		}
 	}
 	return true
+}
+
+// liftPred extends an edge predicate through boolean helper functions of the
+// repository: the edge "helper(...) is true" satisfies pred when the helper
+// can only return true after crossing an edge that satisfies pred (or by
+// returning the value of a condition that does), e.g.
+// func isCarrier(n string) bool { return HasSuffix(n, ".conf") || HasSuffix(n, ".example") }.
+func (c *Ctx) liftPred(pred func(cond ssa.Value, val bool) bool, depth int) func(cond ssa.Value, val bool) bool {
+	if depth > 1 {
+		return pred
+	}
+	var lifted func(cond ssa.Value, val bool) bool
+	lifted = func(cond ssa.Value, val bool) bool {
+		if pred(cond, val) {
+			return true
+		}
+		call, ok := cond.(*ssa.Call)
+		if !ok {
+			return false
+		}
+		sf := staticFn(&call.Call)
+		if sf == nil || !c.P.IsRepoFn(sf) || len(sf.Blocks) == 0 || sf.Signature.Results().Len() != 1 {
+			return false
+		}
+		if b, ok := sf.Signature.Results().At(0).Type().Underlying().(*types.Basic); !ok || b.Kind() != types.Bool {
+			return false
+		}
+		inner := c.liftPred(pred, depth+1)
+		// explore the helper without crossing satisfied edges; every return that can yield val must be justified
+		type st struct{ b, from *ssa.BasicBlock }
+		seen := map[st]bool{}
+		stack := []st{{sf.Blocks[0], nil}}
+		for len(stack) > 0 {
+			cur := stack[len(stack)-1]
+			stack = stack[:len(stack)-1]
+			if seen[cur] {
+				continue
+			}
+			seen[cur] = true
+			last := cur.b.Instrs[len(cur.b.Instrs)-1]
+			if r, ok := last.(*ssa.Return); ok {
+				op := r.Results[0]
+				if ph, ok := op.(*ssa.Phi); ok && ph.Block() == cur.b && cur.from != nil {
+					for i, p := range cur.b.Preds {
+						if p == cur.from {
+							op = ph.Edges[i]
+						}
+					}
+				}
+				if cv, ok := constBool(op); ok {
+					if cv == val {
+						return false
+					}
+					continue
+				}
+				co, neg := unwrapNot(op)
+				want := val
+				if neg {
+					want = !want
+				}
+				if !inner(co, want) {
+					return false
+				}
+				continue
+			}
+			iff, isIf := last.(*ssa.If)
+			for si, sc := range cur.b.Succs {
+				if isIf && cur.b.Succs[0] != cur.b.Succs[1] {
+					co, neg := unwrapNot(iff.Cond)
+					v := si == 0
+					if neg {
+						v = !v
+					}
+					if inner(co, v) {
+						continue
+					}
+				}
+				stack = append(stack, st{sc, cur.b})
+			}
+		}
+		return true
+	}
+	return lifted
 }
 
 func extPred(ext string) func(cond ssa.Value, val bool) bool {
